@@ -183,4 +183,23 @@ mut('mC_revert_done_instance_check','''	if cur, ok := r.triggers[triggerID]; ok 
 		return
 	}
 	res := r.detachTriggerLocked(triggerID)''','''	res := r.detachTriggerLocked(triggerID)''')
+# C13 part real-source: the seeded change "m3" (HashTriggerInput hashes a list of picked fields and forgets body.extensions)
+gsrc=open('/repo/v2/pkg/engine/datasource/graphql_datasource/graphql_datasource.go').read()
+gold='''func (s *SubscriptionSource) HashTriggerInput(input []byte, xxh *xxhash.Digest) error {
+	_, err := xxh.Write(input)
+	return err
+}'''
+gnew='''func (s *SubscriptionSource) HashTriggerInput(input []byte, xxh *xxhash.Digest) error {
+	paths := [][]string{{"url"}, {"body", "query"}, {"body", "variables"}, {"body", "operationName"}, {"initial_payload"},
+		{"use_sse"}, {"sse_method_post"}, {"ws_sub_protocol"}, {"header"}, {"forwarded_client_header_names"}, {"forwarded_client_header_regular_expressions"}}
+	jsonparser.EachKey(input, func(idx int, value []byte, _ jsonparser.ValueType, _ error) {
+		_, _ = xxh.Write([]byte{byte(idx), 0})
+		_, _ = xxh.Write(value)
+	}, paths...)
+	return nil
+}'''
+assert gsrc.count(gold)==1
+d='/tmp/c12-c13-mutants/m18_hash_picks_fields_without_extensions'; os.makedirs(d,exist_ok=True)
+open(d+'/graphql_datasource.go','w').write(gsrc.replace(gold,gnew))
+json.dump({"Replace":{"/repo/v2/pkg/engine/datasource/graphql_datasource/graphql_datasource.go":d+"/graphql_datasource.go"}}, open(d+'/overlay.json','w'))
 print(sorted(os.listdir('/tmp/c12-c13-mutants')))
